@@ -13,7 +13,10 @@ TDES 16/24-byte keys.  Compared inside Coq, with `=`:
   * corr_fn (impl-model, Model/SelFun.v over the generated wiring): the same observation equals the evaluation of the wiring
     read from the source.
 Independent oracle on the code (Python): the expected-key column equals the word of scared.aes / scared.des
-encrypt / decrypt(..., at_round, after_step) of the real code under the true key; no exception; inputs unmodified; dtype uint8.
+encrypt / decrypt(..., at_round, after_step) of the real code under the true key; no exception; inputs unmodified.
+Object-reuse histories (aes_sf_reuse / des_sf_reuse): 2..4 steps on ONE selection function object, each step a call and a
+compute_expected_key in either order with its own key (AES key sizes mixed, the key ndarray mutated in place), data and number of
+traces; the model is history-free, so every step is compared exactly as a fresh object would be.
 """
 import numpy as np
 
@@ -723,5 +726,253 @@ class WordsKind(Kind):
     def shrink(self, case):
         return iter(())
 
+# ------------------------------------------------------------------------------------------------ object-reuse histories
+class _ReuseKind(Kind):
+    """2..4 steps on ONE selection function object.  A step = one `sf(**metadata)` and one `compute_expected_key(key=...)`, in either
+    order (optionally a second compute_expected_key after the call), with its own key (AES: its own key size), its own data batch
+    (other number of traces, other values); between steps the key ndarray is MUTATED IN PLACE when the size allows (else replaced).
+    words / guesses are those the object was built with.  The model is history-free: every step is compared with the spec / the
+    impl-model exactly as a fresh object would be (Coq: forallb <check> over the step records)."""
+    header = HDR
+    shard = 8
+    base = None          # the single-call kind whose generator / printer / tables are reused
+    nw = 16
+    top = 256
 
-KINDS = [AesSfKind(), DesSfKind(), WordsKind()]
+    def _steps(self, rng, ns, name, k):
+        raise NotImplementedError
+
+    def gen(self, rng, tier):
+        k = 0
+        reps = 2 if tier == 'quick' else 16
+        for rep in range(reps):
+            for ns in ('encrypt', 'decrypt'):
+                for name in self.classes[ns]:
+                    yield self._steps(rng, ns, name, k)
+                    k += 1
+
+    def _history(self, rng, ns, name, k, klens):
+        n = 2 + k % 3
+        first = self.base._case(rng, ns, name, klens[0], k, which=3)
+        words, guesses = first['words'], first['guesses']
+        steps = []
+        for i in range(n):
+            c = self.base._case(rng, ns, name, klens[i % len(klens)], k + 3 * i + 1, words=words, which=(3, 0, 3, 1)[i % 4] if i else 3)
+            # the guesses of the object: those of the first step plus the expected-key words of this step's key for the first selected words
+            extra = [g for g in (c['guesses'] or []) if g not in guesses][:1]
+            guesses = guesses + extra
+            steps.append({'key': c['key'], 'inp': c['inp'], 'dtype': c['dtype'], 'order': ('call_key', 'key_call', 'key_call_key')[(k + i) % 3]})
+        # at least two consecutive steps must differ in their key
+        if all(st['key'] == steps[0]['key'] for st in steps):
+            steps[-1]['key'] = [(v + 1) % 256 for v in steps[-1]['key']]
+        return {'ns': ns, 'name': name, 'words': words, 'guesses': guesses, 'guess_form': first['guess_form'], 'custom_tag': first['custom_tag'],
+                'steps': steps}
+
+    def _step_case(self, case, st):
+        return {'ns': case['ns'], 'name': case['name'], 'key': st['key'], 'inp': st['inp'], 'words': case['words'], 'guesses': case['guesses'],
+                'guess_form': case['guess_form'], 'dtype': st['dtype'], 'custom_tag': case['custom_tag']}
+
+    def run(self, case):
+        from scared.selection_functions.base import SelectionFunctionError
+        ns, name = case['ns'], case['name']
+        mod, cipher, width = self._env(ns)
+        src = self.classes[ns][name]
+        tag = spec_tag(ns, src)
+        kw = {}
+        if case['guess_form'] == 'range':
+            kw['guesses'] = range(case['guesses'][0], case['guesses'][-1] + 1)
+        else:
+            kw['guesses'] = np.array(case['guesses'], dtype='int64' if case['guess_form'] == 'int64' else 'uint8')
+        if case['words']['form'] != 'none':
+            kw['words'] = py_words(case['words'])
+        tagname, keyname = tag, 'key'
+        if case.get('custom_tag'):
+            kw[tag + '_tag'] = tagname = 'my_' + tag
+            kw['key_tag'] = keyname = 'my_key'
+        sf = getattr(mod, name)(**kw)                      # ONE object for the whole history
+        keyarr = None
+        out_steps = []
+        for st in case['steps']:
+            newkey = np.array(st['key'], dtype='uint8')
+            if keyarr is not None and keyarr.shape == newkey.shape:
+                keyarr[:] = newkey                          # the caller's key array, mutated in place between the calls
+            else:
+                keyarr = newkey
+            inp = np.array(st['inp'], dtype='uint8')
+            T = inp.shape[0]
+            out = cipher(inp, keyarr).reshape(T, width)
+            pt, ct = (inp, out) if ns == 'encrypt' else (out, inp)
+            meta = {'plaintext': pt.astype(st['dtype']), 'ciphertext': ct.astype(st['dtype']), keyname: keyarr}
+            if tagname != tag:
+                meta[tagname] = meta[tag]
+                meta[tag] = np.bitwise_xor(meta[tag], 0x5A).astype(st['dtype'])
+                meta['key'] = np.bitwise_xor(keyarr, 0xA5)
+            o = {'out': out.tolist()}
+
+            def call():
+                try:
+                    o.update(_mk_words_obs(sf(**meta)))
+                except SelectionFunctionError as e:
+                    o['sferror'] = str(e)[:120]
+
+            def expkey(slot):
+                ek = sf.compute_expected_key(**meta)
+                o[slot] = _flat(ek) if ek is not None and ek.shape == (self.nw,) else []
+            if st['order'] == 'call_key':
+                call()
+                expkey('expkey')
+            else:
+                expkey('expkey')
+                call()
+                if st['order'] == 'key_call_key':
+                    expkey('expkey_again')
+            o['oracle'] = self._oracle_rows(ns, name, src, inp, keyarr, out)
+            o['key_seen'] = keyarr.tolist()
+            # independent oracle for the expected key: the round key of the real key schedule under THIS step's key
+            ks = self._schedule(keyarr)
+            o['expkey_ref'] = _flat(ks[0] if (src == 'in') == (ns == 'encrypt') else ks[-1])
+            out_steps.append(o)
+        return {'steps': out_steps}
+
+    def coq(self, case, obs):
+        outs = obs.get('steps') or [{} for _ in case['steps']]
+        return '[' + '; '.join(self.base.coq(self._step_case(case, st), o) for st, o in zip(case['steps'], outs)) + ']'
+
+    def _describe(self, case, upto):
+        seq = []
+        for i, st in enumerate(case['steps'][:upto + 1]):
+            call = f'sf({len(st["inp"])} traces)'
+            key = f'compute_expected_key(key{i}: {len(st["key"])} bytes{" (same ndarray, mutated in place)" if i and len(st["key"]) == len(case["steps"][i - 1]["key"]) else ""})'
+            seq.append({'call_key': f'{call}; {key}', 'key_call': f'{key}; {call}', 'key_call_key': f'{key}; {call}; {key}'}[st['order']])
+        return ' | '.join(seq)
+
+    def oracle(self, case, obs):
+        if 'raised' in obs:
+            return f'{case["ns"]}.{case["name"]} raised {obs["raised"]}: {obs["msg"]}'
+        for i, (st, o) in enumerate(zip(case['steps'], obs['steps'])):
+            if o['key_seen'] != st['key']:
+                return f'step {i}: the caller\'s key array was modified'
+            if o['expkey'] != o['expkey_ref']:
+                return (f'step {i}: compute_expected_key(key{i}) returned {o["expkey"][:4]}.., the key schedule of key{i} has {o["expkey_ref"][:4]}..; '
+                        f'history on ONE object: {self._describe(case, i)}')
+            if 'expkey_again' in o and o['expkey_again'] != o['expkey']:
+                return f'step {i}: two compute_expected_key calls with the same key differ; history on one object: {self._describe(case, i)}'
+            r = sf_oracle(self._step_case(case, st), dict(o, unchanged=True, default_guesses=None), self.nw, self.top)
+            if r:
+                return f'step {i} of a history on ONE object [{self._describe(case, i)}]: {r}'
+        return None
+
+    def nontrivial(self, case, obs):
+        return 'steps' in obs and len({tuple(st['key']) for st in case['steps']}) > 1
+
+    def features(self, case, obs):
+        return {'class': case['ns'] + '.' + case['name'], 'steps': len(case['steps']), 'orders': '+'.join(sorted({st['order'] for st in case['steps']})),
+                'key_sizes': '/'.join(str(x) for x in sorted({len(st['key']) for st in case['steps']})), 'words': case['words']['form']}
+
+    def tags(self, case, obs):
+        return [self.name, case['ns'] + '.' + case['name']]
+
+    def sample(self, case, obs):
+        return {'case': dict(case, steps=[dict(st, inp=st['inp'][:1]) for st in case['steps'][:2]]),
+                'observed': {'steps': [{k: v for k, v in o.items() if k in ('shape', 'expkey', 'sferror')} for o in obs.get('steps', [])[:2]]}}
+
+    def shrink(self, case):
+        n = len(case['steps'])
+        if n > 1:
+            for i in range(n):
+                yield dict(case, steps=case['steps'][:i] + case['steps'][i + 1:])
+        for i, st in enumerate(case['steps']):
+            if len(st['inp']) > 1:
+                yield dict(case, steps=[dict(s_, inp=s_['inp'][:1]) if j == i else s_ for j, s_ in enumerate(case['steps'])])
+            if st['order'] == 'key_call_key':
+                yield dict(case, steps=[dict(s_, order='key_call') if j == i else s_ for j, s_ in enumerate(case['steps'])])
+        if case.get('custom_tag'):
+            yield dict(case, custom_tag=False)
+
+
+class AesReuseKind(_ReuseKind):
+    name = 'aes_sf_reuse'
+    case_type = 'list aes_sf_case'
+    check_fn = 'forallb aes_sf_check'
+    corr_fn = 'forallb aes_sf_corr'
+    explain_fn = 'map aes_sf_expected'
+    classes = AES_CLASSES
+    nw, top = 16, 256
+    rule = ('object-reuse histories, every public AES class: 2..4 steps on ONE selection function object, each step = sf(**metadata) and '
+            'compute_expected_key(key=...) in either order (or key, call, key), every step with its own key (AES-128/192/256 mixed), data batch '
+            'and number of traces; the key ndarray is mutated in place between steps when the size allows; every step compared with the spec '
+            'and the impl-model as a fresh object would be (the model is history-free); non-trivial = at least two distinct keys')
+
+    def __init__(self):
+        self.base = AesSfKind()
+
+    def _steps(self, rng, ns, name, k):
+        klens = [(16, 16, 24, 32), (24, 32, 16, 16), (32, 32, 32, 16), (16, 24, 24, 32)][k % 4]
+        return self._history(rng, ns, name, k, klens)
+
+    def _env(self, ns):
+        import scared
+        return getattr(scared.aes.selection_functions, ns), (scared.aes.encrypt if ns == 'encrypt' else scared.aes.decrypt), 16
+
+    def _schedule(self, key):
+        import scared
+        return scared.aes.key_schedule(key)
+
+    def _oracle_rows(self, ns, name, src, inp, key, out):
+        import scared
+        T = inp.shape[0]
+        nr = key.shape[0] // 4 + 6
+        enc, dec = scared.aes.encrypt, scared.aes.decrypt
+        st, ist = scared.aes.base.Steps, scared.aes.base.InverseSteps
+
+        def rows(a):
+            return np.asarray(a).reshape(T, 16)
+        if ns == 'encrypt':
+            r = {'FirstAddRoundKey': lambda: rows(enc(inp, key, at_round=0, after_step=st.ADD_ROUND_KEY)),
+                 'FirstSubBytes': lambda: rows(enc(inp, key, at_round=1, after_step=st.SUB_BYTES)),
+                 'LastAddRoundKey': lambda: rows(enc(inp, key, at_round=nr, after_step=st.SHIFT_ROWS)),
+                 'LastSubBytes': lambda: rows(enc(inp, key, at_round=nr - 1, after_step=st.ADD_ROUND_KEY))[:, SHIFT_ROWS],
+                 'DeltaRLastRounds': lambda: np.bitwise_xor(rows(enc(inp, key, at_round=nr - 1, after_step=st.ADD_ROUND_KEY)), out)[:, SHIFT_ROWS]}[name]()
+        else:
+            r = {'FirstAddRoundKey': lambda: rows(dec(inp, key, at_round=0, after_step=ist.INV_ADD_ROUND_KEY)),
+                 'FirstSubBytes': lambda: rows(dec(inp, key, at_round=0, after_step=ist.INV_SUB_BYTES))[:, SHIFT_ROWS],
+                 'DeltaRFirstRounds': lambda: np.bitwise_xor(rows(dec(inp, key, at_round=0, after_step=ist.INV_SUB_BYTES)), inp)[:, SHIFT_ROWS],
+                 'LastAddRoundKey': lambda: rows(dec(inp, key, at_round=nr - 1, after_step=ist.INV_SUB_BYTES)),
+                 'LastSubBytes': lambda: rows(dec(inp, key, at_round=nr - 1, after_step=ist.INV_SHIFT_ROWS))}[name]()
+        return r.tolist()
+
+
+class DesReuseKind(_ReuseKind):
+    name = 'des_sf_reuse'
+    case_type = 'list des_sf_case'
+    check_fn = 'forallb des_sf_check'
+    corr_fn = 'forallb des_sf_corr'
+    explain_fn = 'map des_sf_expected'
+    classes = DES_CLASSES
+    nw, top = 8, 64
+    rule = ('object-reuse histories, every public DES class: 2..4 steps on ONE selection function object, each step = sf(**metadata) and '
+            'compute_expected_key(key=...) in either order, every step with its own 8-byte key (the same ndarray mutated in place), data batch '
+            'and number of traces; every step compared with the spec and the impl-model as a fresh object would be; non-trivial = two distinct keys')
+
+    def __init__(self):
+        self.base = DesSfKind()
+
+    def _steps(self, rng, ns, name, k):
+        return self._history(rng, ns, name, k, [8])
+
+    def _env(self, ns):
+        import scared
+        return getattr(scared.des.selection_functions, ns), (scared.des.encrypt if ns == 'encrypt' else scared.des.decrypt), 8
+
+    def _schedule(self, key):
+        import scared
+        return scared.des.key_schedule(key)
+
+    def _oracle_rows(self, ns, name, src, inp, key, out):
+        import scared
+        cipher = scared.des.encrypt if ns == 'encrypt' else scared.des.decrypt
+        r, s = DES_STOPS[name]
+        return np.asarray(cipher(inp, key, at_round=r, after_step=s, at_des=0)).reshape(inp.shape[0], 8).tolist()
+
+
+KINDS = [AesSfKind(), DesSfKind(), WordsKind(), AesReuseKind(), DesReuseKind()]
